@@ -269,6 +269,13 @@ func (c *collector) finish() error {
 	}
 	confirmPool.confirming = true
 	confirmPool.Watchdog = c.pool.Watchdog * 3 / 2
+	notes := map[string]int{}
+	note := func(ext, k, what string) {
+		if notes[ext+"|"+k] == 0 {
+			fmt.Printf("NOTE extension=%s key=%s %s\n", ext, k, what)
+		}
+		notes[ext+"|"+k]++
+	}
 	for _, k := range keys {
 		ss := byKey[k]
 		sort.Slice(ss, func(i, j int) bool { return ss[i].rec.Len < ss[j].rec.Len }) // the smallest input first
@@ -283,17 +290,40 @@ func (c *collector) finish() error {
 			if err != nil {
 				return err
 			}
-			if ok {
-				confirmed = true
-				info := s.req.info
-				ctx.Violation(k, fmt.Sprintf("%s [%s; %d records of this class] %s", info.class, info.name, len(ss), describe(rec2)), rc)
-				ctx.Ev.Sample(map[string]any{"kind": "rejected record (reproduced)", "key": k, "clause": s.clause, "case": info.name, "record": slimOf(rec2), "detail": rec2.Detail})
-				break
+			if !ok {
+				continue
 			}
+			confirmed = true
+			info := s.req.info
+			what := fmt.Sprintf("%s [%s; %d records of this class] %s", info.class, info.name, len(ss), describe(rec2))
+			switch {
+			case callClass(rec2.Call) == "objwalk":
+				// package walker is not among the entry points property C05 names
+				note("walker", k, what)
+			case rec2.Outcome == "fatal" && strings.Contains(rec2.Detail, "stack overflow"):
+				// the 16 MiB cap is the harness's screening device, not a promise of
+				// the property: only a recursion that grows with the input counts
+				grows, err := c.confirmStack(s.req, rc)
+				if err != nil {
+					return err
+				}
+				if grows {
+					ctx.Violation(k, what+" | still overflows a 256 MiB stack when the structure is made 16 times longer: the depth grows with the input", rc)
+				} else {
+					note("bounded-recursion", k, what+" | fits into 256 MiB also when the structure is made 16 times longer: a bounded recursion deeper than the 16 MiB screening cap")
+				}
+			default:
+				ctx.Violation(k, what, rc)
+				ctx.Ev.Sample(map[string]any{"kind": "rejected record (reproduced)", "key": k, "clause": s.clause, "case": info.name, "record": slimOf(rec2), "detail": rec2.Detail})
+			}
+			break
 		}
 		if !confirmed {
 			unreproduced = append(unreproduced, fmt.Sprintf("%s: %s", k, describe(&ss[0].rec)))
 		}
+	}
+	if len(notes) > 0 {
+		ctx.Ev.Set("extension_findings", notes)
 	}
 	if len(unreproduced) > 0 {
 		sort.Strings(unreproduced)
@@ -313,4 +343,40 @@ func (c *collector) finish() error {
 		ctx.Ev.Set("model_code_disagreements", c.nMismatch)
 	}
 	return nil
+}
+
+// confirmStack decides whether a stack overflow under the screening cap is a
+// recursion that grows with the input: the case is run again under a cap of
+// 256 MiB - four times what go-pdf's own bounds (256 references times 256
+// levels of direct nesting) can need - and, if it is a generated structure,
+// made 16 times longer.  An endless recursion and one that follows the length
+// of a chain overflow again; a bounded one does not.
+func (c *collector) confirmStack(req *Req, rc *replayCase) (bool, error) {
+	pool, err := newPool()
+	if err != nil {
+		return false, err
+	}
+	pool.confirming = true
+	pool.stackMB = 256
+	pool.Watchdog = c.pool.Watchdog * 3
+	r := rc.req()
+	if req.Family != nil {
+		f := *req.Family
+		f.Size *= 16
+		r = &Req{ID: "scaled", Family: &f, GraceMs: 3000}
+	}
+	w, res := pool.runCase(nil, r)
+	w.kill()
+	if res.Infra != nil {
+		return false, res.Infra
+	}
+	if res.Err != "" {
+		return false, core.Infra("scaled case: %s", res.Err)
+	}
+	for i := range res.Recs {
+		if res.Recs[i].Outcome == "fatal" && strings.Contains(res.Recs[i].Detail, "stack overflow") {
+			return true, nil
+		}
+	}
+	return false, nil
 }
